@@ -148,7 +148,10 @@ FindAllIsExpected == \A i \in 1..Len(hist) : hist[i].act = "findall" => hist[i].
 ASSUME PrintT(ToJson([docs |-> [d \in 1..Len(DocSeq) |-> [doc |-> DocSeq[d], nodes |-> <<>>]], ctxs |-> CtxSeq,
                       queries |-> [i \in 1..Len(QuerySeq) |-> Render(QuerySeq[i], StdStyle)]]))
 \* the solo results of this query on every (document, context): what each thread of MC_Threads must produce, whatever the schedule
+\* ... and when the caller supplies no filter context at all (an empty mapping): whatever earlier evaluations were given is gone
+NoCtx(d) == EvalCtx(TheQuery, DocSeq[d], Obj(<<>>, <<>>))
 ASSUME PrintT(ToJson([table |-> QueryIx, exp |-> [d \in 1..Len(DocSeq) |-> [c \in 1..Len(CtxSeq) |->
-                        [j \in 1..Len(Expected(d, c)) |-> Expected(d, c)[j].loc]]]]))
+                        [j \in 1..Len(Expected(d, c)) |-> Expected(d, c)[j].loc]]],
+                      noctx |-> [d \in 1..Len(DocSeq) |-> [j \in 1..Len(NoCtx(d)) |-> NoCtx(d)[j].loc]]]))
 Export == Len(hist) = MaxLen => PrintT(ToJson([q |-> QueryIx, hist |-> hist]))
 =============================================================================
